@@ -18,19 +18,21 @@ PRE_META = ["[&lnL=-12.5]", "[&a=1,b=2]", "[&r={1,2}]", "[&s=\"x y\"]", "[&!colo
             "[&&NHX:S=h:E=1.1]", "[&p=0.95,h={0.1,0.2}]"]
 WEIGHTS = [("[&W 1/2]", 1.0, 2.0), ("[&W 0.25]", 0.25, None), ("[&w 3]", 3.0, None), ("[&W 2/8]", 2.0, 8.0),
            ("[&W 1]", 1.0, None), ("[&W 1/3]", 1.0, 3.0), ("[&W 0.125]", 0.125, None), ("[&w 3/4]", 3.0, 4.0)]
+ZERO_WEIGHTS = [("[&W 0]", 0.0, None), ("[&W 0/5]", 0.0, 5.0), ("[&W 0.0]", 0.0, None), ("[&w 0/1]", 0.0, 1.0)]
 ROOTING = [("", None), ("", None), ("[&R]", True), ("[&U]", False), ("[&r]", True), ("[&u]", False)]
 
 
 @st.composite
-def pre_tokens(draw, plain=False):
-    """Comment tokens in front of a tree description: (text, rooted, weight, n_comments)."""
+def pre_tokens(draw, plain=False, zero_ok=False):
+    """Comment tokens in front of a tree description: (text, rooted, weight, n_comments).  zero_ok: the weight may be a
+    token that evaluates to exactly 0 (callers allow it once the document holds a positive weight)."""
     toks = []
     rtext, rooted = draw(st.sampled_from(ROOTING))
     if rtext:
         toks.append(rtext)
     weight = None
     if draw(st.integers(0, 2)) == 0:
-        wtext, x, y = draw(st.sampled_from(WEIGHTS))
+        wtext, x, y = draw(st.sampled_from(WEIGHTS + ZERO_WEIGHTS * 2 if zero_ok else WEIGHTS))
         weight = x if y is None else x / y
         toks.append(wtext)
     ncm = 0
@@ -76,7 +78,7 @@ def rich_newick_docs(draw, max_taxa=6, max_trees=4, recase=False):
             leaf_text, ch = _recase(draw, labels, texts, range(ntax))
             feats["recased"] = feats["recased"] or ch
         spec = draw(docs.tree_specs(list(range(ntax)), max_leaves=max_taxa, fancy=True))
-        pre, rooted, weight, ncm = draw(pre_tokens())
+        pre, rooted, weight, ncm = draw(pre_tokens(zero_ok=any(t["weight"] for t in trees)))
         s = draw(docs.newick_text(spec, leaf_text, True))
         if s == "":
             spec["t"] = 0
@@ -143,7 +145,7 @@ def rich_nexus_docs(draw, max_taxa=5, max_trees=3, max_blocks=3, max_chars=6, re
                    draw(st.sampled_from(["\n  ;\n", ";\n"]))
         for _ in range(draw(st.integers(1, max_trees))):
             spec = draw(docs.tree_specs(taxa, max_leaves=max_taxa, fancy=True))
-            pre, rooted, weight, ncm = draw(pre_tokens())
+            pre, rooted, weight, ncm = draw(pre_tokens(zero_ok=any(t["weight"] for t in trees)))
             s = draw(docs.newick_text(spec, leaf_text, True))
             if s == "":
                 spec["t"] = taxa[0]
@@ -188,7 +190,7 @@ def numeric_newick_docs(draw, max_taxa=6, max_trees=4):
     out = ""
     for k in range(draw(st.integers(1, max_trees))):
         spec = draw(docs.tree_specs(list(range(ntax)), max_leaves=max_taxa, fancy=fancy, blanks=False))
-        pre, rooted, weight, ncm = draw(pre_tokens(plain=not fancy))
+        pre, rooted, weight, ncm = draw(pre_tokens(plain=not fancy, zero_ok=any(t["weight"] for t in trees)))
         s = draw(docs.newick_text(spec, labels, fancy))
         if s == "":
             spec["t"] = 0
@@ -248,9 +250,15 @@ def nexml_recipes(draw, max_taxa=5, max_trees=3, max_lists=3, max_chars=6):
     ntax = draw(st.integers(1, max_taxa))
     labels = draw(st.lists(st.sampled_from(NEXML_LABELS), min_size=ntax, max_size=ntax, unique_by=lambda s: s.lower()))
     lists = []
-    for _ in range(draw(st.integers(1, max_lists))):
+    nlists = draw(st.integers(1, max_lists + 1))
+    # with several lists some may be EMPTY (an empty <trees> element is a collection too); at least one holds trees
+    sizes = [draw(st.sampled_from([0, 1, 1, 2, max_trees])) if nlists > 1 else draw(st.integers(1, max_trees))
+             for _ in range(nlists)]
+    if not any(sizes):
+        sizes[draw(st.integers(0, nlists - 1))] = 1
+    for size in sizes:
         trees = []
-        for _ in range(draw(st.integers(1, max_trees))):
+        for _ in range(size):
             n = draw(st.integers(1, ntax))
             spec = draw(shapes.shapes(min_leaves=n, max_leaves=n, max_arity=4, unifurcations=True))
             perm = list(draw(st.permutations(list(range(ntax)))))
